@@ -61,7 +61,25 @@ def run(ctx):
             if is_call(t) and callee_name(t[1]) in ("copied", "cloned", "iter", "into_iter", "as_ref", "as_slice", "deref") and t[2]:
                 t = W.expand(t[2][0])
         return t
-    oku = len(apps) == 1 and appended(apps[0][2][1]) == ("param", up.path, 2) and not up.in_loop(apps[0][0]) and all(up.dominates(apps[0][0], x) for x in up.exits()) and not others
+    def on_every_path(fn, ev, app_bb, param):
+        """the append lies on every path to a return, except paths taken only when the parameter is empty (appending nothing is a no-op)"""
+        import flow
+        IN = flow.must_facts(fn, ev)
+        ef = flow.edge_facts(fn, ev)
+        for x in fn.exits():
+            if fn.dominates(app_bb, x):
+                continue
+            for (p_, rels) in flow.path_conditions(fn, ev, IN, x, ef):
+                if p_ is not None and fn.dominates(app_bb, p_):
+                    continue
+                empty = any((r[0] == "Pred" and r[1] == "is_empty" and r[2] == param) or
+                            (r[0] == "Eq" and ("len", param) in (r[1], r[2]) and ("int", 0) in (r[1], r[2])) for r in rels)
+                if not empty:
+                    return False
+        return True
+    # capacity management does not change the contents
+    others = [o for o in others if o not in ("reserve_exact", "shrink_to", "shrink_to_fit", "capacity", "try_reserve", "try_reserve_exact")]
+    oku = len(apps) == 1 and appended(apps[0][2][1]) == ("param", up.path, 2) and not up.in_loop(apps[0][0]) and on_every_path(up, uev, apps[0][0], ("param", up.path, 2)) and not others
     ctx.check("buffer-discipline", "update/appends-exactly-its-parameter", oku, "update appends exactly its parameter, once, on every path",
               "update's effect on buf is %s" % [(e[1], [fmt(a) for a in e[2][1:]]) for e in evs], ctx.loc(up))
     # from_seed: empty buffer
@@ -86,6 +104,8 @@ def run(ctx):
         r = sev.ret()
         okret = values.contains(r, lambda s: s == sev.call_term(signs[0])) or r == sev.call_term(signs[0])
         muts = [callee_name(c) for (b, c, argi, ap) in sev.events_on(1, ("buf",)) if argi == 0 and sg.blocks[b].term["arg_tys"][0].startswith("&mut") and b != clears[0]]
+        # capacity management (after or before signing) does not change the contents
+        muts = [m for m in muts if m not in ("reserve", "reserve_exact", "shrink_to", "shrink_to_fit", "try_reserve", "try_reserve_exact")]
         oks = okargs and okorder and okret and not muts
         det = "sign(signing_key, buf)=%s, sign before clear and clear on every path=%s, returns the signature=%s, other mutations=%s" % (okargs, okorder, okret, muts)
     ctx.check("buffer-discipline", "sign/signs-then-clears", oks, "sign = dalek sign(signing_key, &buf), then buf.clear() on every path; returns that signature",
